@@ -46,6 +46,16 @@ def items_table(prog):
                     rows.append(["build %s <- %s" % (s["rv"]["v"], getter), sorted(guards.guard_set(b, S, bi))])
         rows.sort(key=lambda r: (r[0], r[1]))
         out[fid] = rows
+    # calls between the IF_DATA parsers and of the cursor functions, with their literal flags (e.g. the is_block flag handed to
+    # the fallback parser), and tagged-item constructions
+    fids2 = sorted(f for f, b in prog.bodies.items() if b.file == "a2lfile/src/ifdata.rs" and b.kind != "Closure" and "::test" not in f)
+    A2 = sym.Analyzer(prog, opaque=[r"ifdata::.*", r"parser::.*", r"a2ml::.*"])
+    extra = diag.module_table(prog, A2, fids2, re.compile(r"ifdata::\w+$|parser::ParserState::(set_tokenpos|get_tokenpos|undo_get_token|get_token|expect_token|get_next_tag_or_comment|get_next_id|get_incfilename)$|HashMap(<.*>)?::insert$|Vec(<.*>)?::push$"),
+                              adts=("a2ml::GenericIfDataTaggedItem",), cursors=False)
+    for fn, rows in extra.items():
+        have = out.setdefault(fn, [])
+        have.extend(rows)
+        have.sort(key=lambda r: (r[0], r[1]))
     return out
 
 
@@ -124,7 +134,7 @@ def run(chk):
     chk.rule("R18-scalars", "A2ML scalar types whose keyword/token/typespec/variant/width chain equals the A2ML scalar table", n, floor=10)
 
     # ------------------------------------------------------------------ R18-items
-    diag.compare(chk, "R18-items", "ifdata", items_table(prog), "GenericIfData constructions in the IF_DATA parsers: variant, getter and control predicates compared with the reviewed table", floor=25)
+    diag.compare(chk, "R18-items", "ifdata", items_table(prog), "GenericIfData constructions in the IF_DATA parsers: variant, getter and control predicates compared with the reviewed table", floor=100)
 
     # ------------------------------------------------------------------ R18-valid
     b = prog.bodies.get("ifdata::parse_ifdata")
